@@ -40,6 +40,8 @@ typedef struct { int ret, once, n; Act acts[MAXACT]; } Script;
 static Script scripts[3][3];
 static int seen[3][3];
 static int maxdepth, depth, quiet;
+static long ncalls;                 /* handler invocations in this case */
+#define MAXCALLS 3000               /* beyond this the handlers go silent: a runaway is reported, not logged */
 static char mode;
 
 typedef struct { int name, hid; } HRec;
@@ -85,6 +87,7 @@ static int handler(void *owner, TickitEventFlags flags, void *info, void *data)
 {
   HRec *r = data;
   if(quiet) return 0;
+  if(++ncalls > MAXCALLS) return 0;
   int kind = (flags & TICKIT_EV_DESTROY) ? KX : (flags & TICKIT_EV_FIRE) ? KF : KU;
   Script *sc = &scripts[r->hid][kind];
   int run = depth < maxdepth && !(sc->once && seen[r->hid][kind]);
@@ -226,7 +229,7 @@ int main(void)
     for(int i = 11; i < vh_ntok && ok; i++) ok = parse_act(vh_tok[i], &ops[nops++]);
     if(!ok) { printf("ERR case\n"); continue; }
     memset(seen, 0, sizeof seen);
-    depth = 0; nbind = 0; nrecs = 0; bad_op = 0; c16_allocs = 0;
+    depth = 0; nbind = 0; nrecs = 0; bad_op = 0; c16_allocs = 0; ncalls = 0;
     new_object();
     printf("T");
     for(int i = 0; i < nops && !bad_op; i++) {
@@ -234,6 +237,7 @@ int main(void)
       if(mode == 'D') dump();
     }
     if(bad_op) printf(" ERR op");
+    if(ncalls > MAXCALLS) printf(" RUNAWAY");
     /* dispose of the object quietly: handlers log nothing that is compared */
     quiet = 1;
     if(mode == 'D') tickit_bindings_unbind_and_destroy(&bindings, NULL);
